@@ -334,6 +334,49 @@ ALL_SIM_MONITORS = {
 }
 
 
+def mon_input_invokes_device(scn, run):
+    """every Input a scheduler level hands to a device component makes that component invoke its device, once, with the
+    time of that Input, before the component's answer is taken; a Skip never does (C02: "a tick invokes every root's
+    device and the device of every component whose inputs changed - and nobody else's")"""
+    out = []
+    tr = run["trace"]
+    devs = {d["name"] for d in S.devices(scn)}
+    if any(e["comp"] in devs for e in tr.of("probe-raised")) or run["info"].get("sched_error"):
+        return out
+    by = {}
+    for e in tr.events:
+        if e["k"] == "t-dispatch" and e["comp"] in devs:
+            by.setdefault(e["comp"], []).append(("input" if e["dk"] == "input" else "skip", e["time"]))
+        elif e["k"] == "update" and e["comp"] in devs:
+            by.setdefault(e["comp"], []).append(("update", e["time"]))
+        elif e["k"] == "t-answer" and e["src"] in devs and not e.get("skip"):
+            by.setdefault(e["src"], []).append(("answer", e["time"]))
+    for d, evs in by.items():
+        pending, n_upd, n_ans = [], 0, 0
+        for kind, t in evs:
+            if kind == "input":
+                pending.append(t)
+            elif kind == "update":
+                n_upd += 1
+                if not pending:
+                    out.append(V("device-invoked-without-input", f"device {d} was invoked at time {t} although no Input was outstanding for it", comp=d))
+                    break
+                t0 = pending.pop(0)
+                if t0 != t:
+                    out.append(V("device-invoked-with-other-time", f"device {d}: Input for time {t0} led to an update stamped {t}", comp=d))
+                    break
+            elif kind == "answer":
+                n_ans += 1
+                if n_ans > n_upd:
+                    out.append(V("input-did-not-invoke-device", f"device {d} answered its Input #{n_ans} (time {t}) without its device having been invoked for it "
+                                 f"({n_upd} invocations so far)", comp=d))
+                    break
+    return out
+
+
+ALL_SIM_MONITORS["input_invokes"] = mon_input_invokes_device
+
+
 # ------------------------------------------------------------------ interrupts (C07)
 def mon_interrupts(scn, run):
     """every interrupt raised once the master has begun its initial tick is followed by an
